@@ -1002,7 +1002,7 @@ struct Digit {
             const SizeT   dot_index     = SizeT(started_at + fraction_length);
             const bool    fraction_only = (number_length <= fraction_length);
 
-            while ((number < last) && (*number == DigitUtils::DigitChar::Zero)) {
+            while ((number < last) && (index < dot_index) && (*number == DigitUtils::DigitChar::Zero)) {
                 ++number;
                 ++index;
             }
@@ -1034,12 +1034,8 @@ struct Digit {
                 if (power_increased) {
                     zeros = SizeT(number_length - fraction_length);
                 } else {
-                    const SizeT rem    = (index - started_at);
-                    const SizeT needed = SizeT(number_length - calculated_digits);
-
-                    if (rem > needed) {
-                        zeros = (rem - needed);
-                    }
+                    // The carry walked over nines of the integer part: they are zeros now.
+                    zeros = (index - dot_index);
                 }
 
                 while (zeros != 0) {
@@ -1061,7 +1057,7 @@ struct Digit {
 
     template <bool Fixed_T, typename Stream_T>
     static void formatStringNumberFixed(Stream_T &stream, const SizeT started_at, const SizeT32 precision,
-                                        const SizeT32 calculated_digits, const SizeT32 fraction_length,
+                                        const SizeT32 /* calculated_digits */, const SizeT32 fraction_length,
                                         const bool round_up) {
         using Char_T              = typename Stream_T::CharType;
         Char_T     *storage       = stream.Storage();
@@ -1081,7 +1077,7 @@ struct Digit {
                     Char_T       *number = (storage + index);
                     const Char_T *last   = stream.Last();
 
-                    while ((number < last) && (*number == DigitUtils::DigitChar::Zero)) {
+                    while ((number < last) && (index < dot_index) && (*number == DigitUtils::DigitChar::Zero)) {
                         ++number;
                         ++index;
                     }
@@ -1115,12 +1111,8 @@ struct Digit {
                     if (power_increased) {
                         zeros = SizeT(number_length - fraction_length);
                     } else {
-                        const SizeT rem    = (index - started_at);
-                        const SizeT needed = SizeT(number_length - calculated_digits);
-
-                        if (rem > needed) {
-                            zeros = (rem - needed);
-                        }
+                        // The carry walked over nines of the integer part: they are zeros now.
+                        zeros = (index - dot_index);
                     }
 
                     while (zeros != 0) {
